@@ -87,8 +87,9 @@ def set_decimal_config() -> None:
         scale: Number of decimal places
     """
     global DECIMAL_WIDTH, DECIMAL_SCALE
-    DECIMAL_WIDTH = int(os.getenv(DECIMAL_WIDTH_ENV_VAR, DECIMAL_WIDTH))
-    DECIMAL_SCALE = int(os.getenv(DECIMAL_SCALE_ENV_VAR, DECIMAL_SCALE))
+    # An unset variable means the documented default, not the value of a previous run
+    DECIMAL_WIDTH = int(os.getenv(DECIMAL_WIDTH_ENV_VAR, DEFAULT_DECIMAL_WIDTH))
+    DECIMAL_SCALE = int(os.getenv(DECIMAL_SCALE_ENV_VAR, DEFAULT_DECIMAL_SCALE))
 
     if DECIMAL_WIDTH == DISABLE_VALUE:
         DECIMAL_WIDTH = MAX_DECIMAL_WIDTH
@@ -105,12 +106,23 @@ def set_decimal_config() -> None:
             disable_value=DISABLE_VALUE,
         )
 
-    if DECIMAL_WIDTH < MIN_DECIMAL_WIDTH or DECIMAL_SCALE > MAX_DECIMAL_WIDTH:
+    if DECIMAL_WIDTH < MIN_DECIMAL_WIDTH or DECIMAL_WIDTH > MAX_DECIMAL_WIDTH:
         raise RunTimeError(
             code="0-4-1-1",
             env_var=DECIMAL_WIDTH_ENV_VAR,
             value=DECIMAL_WIDTH,
             min_value=MIN_DECIMAL_WIDTH,
+            max_value=MAX_DECIMAL_WIDTH,
+            disable_value=DISABLE_VALUE,
+        )
+
+    # DECIMAL(width, scale) needs width >= scale
+    if DECIMAL_WIDTH < DECIMAL_SCALE:
+        raise RunTimeError(
+            code="0-4-1-1",
+            env_var=DECIMAL_WIDTH_ENV_VAR,
+            value=DECIMAL_WIDTH,
+            min_value=DECIMAL_SCALE,
             max_value=MAX_DECIMAL_WIDTH,
             disable_value=DISABLE_VALUE,
         )
